@@ -82,6 +82,9 @@ pub fn main(tier: Tier, seed: u64) -> i32 {
     enum Job {
         Default,
         Reverse,
+        /// explicit MPC-message events: all coordination events first, so that computations overlap
+        /// wherever the permits allow it
+        Interleaved,
         Fail(crate::srv::RpcKey),
         Cancel { pol: u8, party: u8, at: usize },
     }
@@ -98,6 +101,7 @@ pub fn main(tier: Tier, seed: u64) -> i32 {
         };
         jobs.push((bi, Job::Default));
         jobs.push((bi, Job::Reverse));
+        jobs.push((bi, Job::Interleaved));
         let k = b.policies.len();
         if k <= 3 || tier.is_thorough() {
             // every single coordination RPC failed once
@@ -122,10 +126,15 @@ pub fn main(tier: Tier, seed: u64) -> i32 {
         let b = &batches[*bi];
         let Some(base) = &bases[*bi] else { return Err("no base".to_string()) };
         let mut walk = Walk { prefer: base.history.clone(), max_steps: 50_000, ..Default::default() };
+        let mut policy = MsgPolicy::Eager;
         match job {
             Job::Default => {}
             Job::Reverse => {
                 walk.prefer = base.history.iter().rev().cloned().collect();
+            }
+            Job::Interleaved => {
+                walk.prefer = vec![];
+                policy = MsgPolicy::Explicit;
             }
             Job::Fail(key) => {
                 let at = base.history.iter().position(|e| *e == Ev::Deliver(*key)).unwrap_or(0);
@@ -133,7 +142,7 @@ pub fn main(tier: Tier, seed: u64) -> i32 {
             }
             Job::Cancel { pol, party, at } => walk.injections.push((*at, Ev::Cancel { pol: *pol, party: *party })),
         }
-        run_walk(b.n, b.concurrency, b.policies.clone(), walk, MsgPolicy::Eager, crate::exec::mix(seed, 1700 + *bi as u64))
+        run_walk(b.n, b.concurrency, b.policies.clone(), walk, policy, crate::exec::mix(seed, 1700 + *bi as u64))
     });
     let mut states = 0u64;
     let mut transitions = 0u64;
@@ -165,7 +174,7 @@ pub fn main(tier: Tier, seed: u64) -> i32 {
             }
         }
         match job {
-            Job::Default | Job::Reverse => {
+            Job::Default | Job::Reverse | Job::Interleaved => {
                 // everything ran to completion: full budget, all stopped, every destination served once
                 for (p, permits) in snap.permits.iter().enumerate() {
                     if *permits != b.concurrency {
